@@ -115,6 +115,8 @@ func (i StringsInspector) Compare(src any, cond Op, right string, result *bool, 
 		s = ss[idx]
 	case len(pp) > 0 && idx < len(pp):
 		s = byteconv.B2S(pp[idx])
+	default:
+		return nil
 	}
 	switch cond {
 	case OpNq:
